@@ -15,12 +15,12 @@ pub fn prop() -> Prop {
 fn spec() -> Spec {
     Spec {
         kinds: vec![Kind { name: "random_reals", quick: 1_000_000, thorough: 30_000_000, serial: false }],
-        rule: "(a) exhaustive 5-degree lattice (from,to,angle) in [-720,720]^3 decided in exact integer arithmetic, through Constraints::new, from_degrees and update_range, joint index rotating; (b) random real (from,to) in [-4pi,4pi]^2 per joint, six independent joints per call, angles kept >= 1e-9 from the arc ends, with turn-shift metamorphic variants k=-2..2, centre acceptance and filter==compliant; non-trivial = the six joints do not all give the same verdict trivially (at least one constrained joint); distinct = hash(from,to,angles) Workload additions: update_range as a history (earlier limits share one bound / are unconstrained / unrelated, optional intermediate update); from == to written with zeros of opposite sign; arcs a few ulps to a nanoradian wide; wrap-around ranges with both limits in (pi,2pi); from_degrees judged against degrees converted by the monitor; a quarter of the deciding angles 2e-9..1e-6 rad next to an arc end. Rounds 7-9: tiny forbidden gap next to a full turn; infinite bounds.",
+        rule: "(a) exhaustive 5-degree lattice (from,to,angle) in [-720,720]^3 decided in exact integer arithmetic, through Constraints::new, from_degrees and update_range, joint index rotating; (b) random real (from,to) in [-4pi,4pi]^2 per joint, six independent joints per call, angles kept >= 1e-9 from the arc ends, with turn-shift metamorphic variants k=-2..2, centre acceptance and filter==compliant; non-trivial = the six joints do not all give the same verdict trivially (at least one constrained joint); distinct = hash(from,to,angles) Workload additions: update_range as a history (earlier limits share one bound / are unconstrained / unrelated, optional intermediate update); from == to written with zeros of opposite sign; arcs a few ulps to a nanoradian wide; wrap-around ranges with both limits in (pi,2pi); from_degrees judged against degrees converted by the monitor; a quarter of the deciding angles 2e-9..1e-6 rad next to an arc end. Rounds 7-9: tiny forbidden gap next to a full turn; infinite bounds. Round 10: filter() on lists whose rows repeat joint values of earlier rows bit for bit.",
         assumptions: vec![
             "from > to with from == to (mod 2pi) is degenerate (zero width vs full turn is not defined by the property) and is skipped",
             "random reals within 1e-9 rad of an arc end are inconclusive",
         ],
-        minimums: vec![("oracle_evals", 20_000_000, 30_000_000), ("lattice_triples", 24_000_000, 24_000_000), ("lattice_boundary_points", 100_000, 100_000)],
+        minimums: vec![("oracle_evals", 20_000_000, 30_000_000), ("lattice_triples", 24_000_000, 24_000_000), ("lattice_boundary_points", 100_000, 100_000), ("filter_lists_with_repeated_values", 300_000, 9_000_000)],
     }
 }
 
@@ -160,7 +160,21 @@ fn run_case(_kind: &str, idx: u64, rng: &mut Rng, mon: &mut Mon, _tier: Tier) {
         mon.held();
     }
     // filter == elementwise compliant
-    let list: Vec<[f64; 6]> = (0..4).map(|i| if i == 0 { ang } else { std::array::from_fn(|_| rng.range(-4.0 * PI, 4.0 * PI)) }).collect();
+    let mut list: Vec<[f64; 6]> = (0..4).map(|i| if i == 0 { ang } else { std::array::from_fn(|_| rng.range(-4.0 * PI, 4.0 * PI)) }).collect();
+    // (rows as a solver produces them: later rows repeat most joint values of an earlier row bit for bit and differ in one
+    // to three joints, which take an accepted value (the centre), a rejected one (opposite the centre) or a random one)
+    if rng.bool(0.5) {
+        list.truncate(1 + rng.usize(2));
+        for _ in 0..(2 + rng.usize(5)) {
+            let mut row = list[rng.usize(list.len())];
+            for _ in 0..(1 + rng.usize(3)) {
+                let j = rng.usize(6);
+                row[j] = match rng.usize(3) { 0 if c.centers[j].is_finite() => c.centers[j], 1 if c.centers[j].is_finite() => c.centers[j] + PI, _ => rng.range(-PI, PI) };
+            }
+            list.push(row);
+        }
+        mon.count("filter_lists_with_repeated_values");
+    }
     let filtered = c.filter(&list);
     let manual: Vec<[f64; 6]> = list.iter().filter(|a| c.compliant(a)).cloned().collect();
     if filtered != manual {
